@@ -1284,6 +1284,11 @@ func numbersAsFloat64(value any) any {
 		if f, err := v.Float64(); err == nil {
 			return f
 		}
+	case int64:
+		// parameters are decoded to int64 / int32 / float64
+		return float64(v)
+	case int32:
+		return float64(v)
 	case []any:
 		out := make([]any, len(v))
 		for i, item := range v {
